@@ -104,6 +104,8 @@ def run_tlc(module, cfg, workdir_name, workers=8, timeout=1500, env=None, out_fi
         p = subprocess.run(cmd, cwd=SPEC, env=e, stdout=f, stderr=subprocess.STDOUT)
     r = TlcResult()
     r.wall = time.time() - t0
+    if os.environ.get("VERIF_TIMING"):
+        log(f"[time] tlc {module} {cfg} {r.wall:.0f}s")
     r.out_path = out_path
     keep = []
     completed = False
@@ -168,8 +170,11 @@ def run_vh(args, timeout=3600, env=None):
     e["VERIF_SEED"] = str(seed())
     if env:
         e.update(env)
+    t0 = time.time()
     p = subprocess.run(["timeout", str(timeout), VH] + args, env=e, stdout=subprocess.PIPE,
                        stderr=subprocess.PIPE, text=True)
+    if os.environ.get("VERIF_TIMING"):
+        log(f"[time] vh {' '.join(args[:6])} {time.time() - t0:.0f}s")
     if p.returncode != 0:
         raise ToolError(f"vh {' '.join(args[:3])} failed rc={p.returncode}: {p.stderr[-2000:]}")
     return p.stdout
